@@ -233,6 +233,9 @@ func genVN(rng *hx.Rng, n int) []string {
 			ops = append(ops, fmt.Sprintf("vn dereg %d", h))
 		default:
 			h := rng.Intn(len(tr))
+			for tries := 0; tries < 3 && tr[h].dereg; tries++ {
+				h = rng.Intn(len(tr)) // prefer listeners that can still wait
+			}
 			if rng.Chance(1, 40) {
 				h = len(tr) + rng.Intn(2)
 			}
